@@ -21,6 +21,7 @@ class W { w: /[ab\n]+/ |> `cb` }
 class Pair { k: W << ":"; v: W }
 T(p) = p >> W
 Acc = let acc = `[]` in (/[ab]/ |> `acc.append`)* >> `acc`
+class Tg(n) { t: `repr(n)`; w: W }
 '''
 OTHER = 'start = Num*\nignore / +/\nclass Num { n: /[0-9]+/ |> `int` }\n'
 CHILD = ('grammar %(child)s extends %(parent)s\nignore /~+/\nclass W { w: /[abc]+/ }\nItem = Pair | W | T("-")\nExtra = "z"\n')
@@ -43,6 +44,29 @@ CALLS = [
 ]
 
 
+# a parameterised class as entry point, requested with equal but distinguishable arguments: (entry, text, pos, fullparse, args)
+TG_CALLS = [('Tg', 'ab', 0, True, (1,)), ('Tg', 'ab', 0, True, (True,)), ('Tg', 'ab', 0, True, (1.0,)), ('Tg', 'b', 0, True, ([1],)),
+            ('Tg', 'b', 0, True, ([True],))]
+
+
+def fails_grammar():
+    """an unrelated grammar full of `... | Fail(message)` choices of different widths (its expression ids are dense)"""
+    rows = []
+    for k in range(48):
+        real = ' | '.join('"%s%d"' % ('pqrs'[i], k) for i in range(1 + k % 4))
+        rows.append('R%d = %s | Fail("expected item %d")' % (k, real, k))
+    return 'start = R0\n' + '\n'.join(rows) + '\n'
+
+
+REJECTED = ['start = = "a"\n', 'grammar %(uid)s_x extends no_such_parent_%(uid)s\nstart = "a"\n', 'start = "a"\nstart = "b"\n',
+            'start = Undefined(\n']
+
+
+def settings():
+    """interpreter-wide settings that a parse can observe (how deep it may recurse, when threads switch)"""
+    return (sys.getrecursionlimit(), sys.getswitchinterval(), threading.stack_size(), sys.gettrace() is None)
+
+
 class Boom(Exception):
     pass
 
@@ -55,8 +79,10 @@ def build(named=None):
 
 
 def outcome(g, call, raising=False, keep_text=False):
-    ent, text, pos, full = call
+    ent, text, pos, full = call[:4]
     parse = impl.entry(g, ent)
+    if len(call) > 4:
+        parse = parse(*call[4])
     ident = threading.get_ident()
     if raising:
         def hook(v):
@@ -77,6 +103,10 @@ def baseline():
     for i, c in enumerate(CALLS):
         base[i] = outcome(build(), c)
     base['raise'] = outcome(build(), CALLS[0], raising=True)
+    for i, c in enumerate(TG_CALLS):
+        base[('tg', i)] = outcome(build(), c)
+    b = impl.build(DESC % {'head': ''}, include_source=True)
+    base['source'] = b[1]._source_code
     # the derived grammar, used alone right after it was built on a fresh base
     for variant in ('v1', 'v2'):
         for j, t in enumerate(CHILD_TEXTS):
@@ -139,14 +169,32 @@ def history_ops():
 
 
 NAME_OPS = [('build-child',), ('rebuild-same-name',), ('use-child', 0), ('use-child', 3), ('call', 0)]
+# equal-but-distinguishable arguments of a parameterised entry point; compilations (accepted, rejected, full of Fail
+# choices) against a later compilation of the scenario description itself
+ARG_OPS = [('tg', i) for i in range(len(TG_CALLS))] + [('call', 3), ('raise',)]
+COMPILE_OPS = [('build-fails',), ('fresh-build',), ('build-other',), ('call', 1), ('raise',)] + [('build-rejected', k) for k in range(len(REJECTED))]
+OPSETS = {'names': NAME_OPS, 'args': ARG_OPS, 'compile': COMPILE_OPS}
 
 
 def history_job(job, st):
+    if len(job) > 3 and job[3] == 'compile':
+        # run these histories under the interpreter's default recursion limit (the harness raises it on import)
+        old = sys.getrecursionlimit()
+        sys.setrecursionlimit(1000)
+        try:
+            return history_job_(job, st)
+        finally:
+            sys.setrecursionlimit(old)
+    return history_job_(job, st)
+
+
+def history_job_(job, st):
     _, first_op, depth = job[:3]
     base = st['base']
     res = new_res()
     sigs = set()
-    ops = NAME_OPS if len(job) > 3 else history_ops()
+    ops = OPSETS[job[3]] if len(job) > 3 else history_ops()
+    env0 = settings()
     for L in range(1, depth + 1):
         for rest in itertools.product(ops, repeat=L - 1):
             hist = (first_op,) + rest
@@ -166,6 +214,30 @@ def history_job(job, st):
                     elif op[0] == 'raise':
                         got = outcome(g, CALLS[0], raising=True)
                         exp = base['raise']
+                    elif op[0] == 'tg':
+                        got = outcome(g, TG_CALLS[op[1]])
+                        exp = base[('tg', op[1])]
+                    elif op[0] == 'build-fails':
+                        b = impl.build(fails_grammar())
+                        got = exp = None
+                        if b[0] != 'OK':
+                            got, exp = b, 'module'
+                    elif op[0] == 'build-rejected':
+                        b = impl.build(REJECTED[op[1]] % {'uid': uid})
+                        got = exp = None
+                        if b[0] == 'OK':
+                            got, exp = 'module', 'rejected description'
+                    elif op[0] == 'fresh-build':
+                        # the scenario description compiled again now: same generated text, same failure report
+                        b = impl.build(DESC % {'head': ''}, include_source=True)
+                        if b[0] != 'OK':
+                            got, exp = b, 'module'
+                        elif b[1]._source_code != base['source']:
+                            s1, s2 = base['source'], b[1]._source_code
+                            d = next((i for i, (x, y) in enumerate(zip(s1, s2)) if x != y), min(len(s1), len(s2)))
+                            got, exp = ('generated text differs', s2[max(0, d - 40):d + 60]), ('generated text', s1[max(0, d - 40):d + 60])
+                        else:
+                            got, exp = outcome(b[1], CALLS[1]), base[1]
                     elif op[0] == 'build-other':
                         b = impl.build(OTHER)
                         got = exp = None
@@ -198,6 +270,13 @@ def history_job(job, st):
                     if k > 0:
                         res['ctr']['nontrivial'] += 1
                     res['sets']['outcomes'].add(repr(got)[:200])
+                    if got == exp and settings() != env0:
+                        got, exp = ('interpreter settings (recursion limit, switch interval, stack size, trace)', settings()), ('unchanged', env0)
+                        try:
+                            sys.setrecursionlimit(env0[0])
+                            sys.setswitchinterval(env0[1])
+                        except Exception:
+                            pass
                     if got != exp:
                         case = {'history': [list(o) for o in hist[:k + 1]], 'scenario': 'single grammar'}
                         add_viol(res, sigs, 'history outcome-depends-on-earlier-operations (%s after %s)' % (op[0], hist[k - 1][0] if k else 'start'),
@@ -552,6 +631,10 @@ def all_jobs(tier):
     # longer histories over the operations that build, rebuild (same name) and use grammars
     for op in NAME_OPS:
         yield ('hist', op, 5 if tier == 'quick' else 6, 'names')
+    for op in ARG_OPS:
+        yield ('hist', op, 3 if tier == 'quick' else 5, 'args')
+    for op in COMPILE_OPS:
+        yield ('hist', op, 3 if tier == 'quick' else 5, 'compile')
     for op in PAIR_OPS:
         yield ('pair', op, 4 if tier == 'quick' else 5)
     for text in ('xx', 'xyx', 'x x', 'xx!'):
@@ -589,7 +672,7 @@ def run(tier, seed):
     chk.rule = ('one grammar (classes, ignore, template, inline-Python callback, error paths): (i) ALL histories of length <= 3 (thorough 4) '
                 'over 18 operations (9 parse calls with different texts / offsets / entry rules / fullparse, a call abandoned by a raising '
                 'callback, building another grammar, building a grammar that reuses the name, building a grammar that extends it and adds an ignore, 3 calls through that derived grammar), each '
-                'replayed on a freshly built module, all histories of length <= 5 (6) over the 5 operations that build, rebuild under the same name and use grammars, plus all histories of length <= 4 (5) over 6 calls through a base grammar without ignore and a derived grammar with one; (ii) ALL thread interleavings with <= 1 preemption of every pair of 8 call bodies (incl. '
+                'replayed on a freshly built module, all histories of length <= 5 (6) over the 5 operations that build, rebuild under the same name and use grammars, all histories of length <= 3 (5) over 7 operations around a parameterised class entry requested with equal but distinguishable arguments (1, True, 1.0, [1], [True]) and over 9 operations around compilations (a grammar full of `| Fail()` choices, 4 rejected descriptions, the scenario description compiled again: same generated text and failure report; interpreter settings unchanged after every operation), plus all histories of length <= 4 (5) over 6 calls through a base grammar without ignore and a derived grammar with one; (ii) ALL thread interleavings with <= 1 preemption of every pair of 8 call bodies (incl. '
                 'failing and raising ones) and of a parse against a concurrent Grammar() construction, <= 2 preemptions on reduced pairs '
                 '(thorough: 3 threads, opcode granularity), scheduling points = line events of the generated module under a baton '
                 'scheduler; (iii) EVERY single deviation (nested parse discarded / embedded x 7 calls, raise) at every inline-Python '
